@@ -539,6 +539,10 @@ def badwell_programs(dev):
             {"op": "transfer", "src": T, "sw": L([(0, 0)]), "dst": P, "dw": L([w2, w2]), "vols": L([1, 2]), "label": "bad dst", "wash": 1},
             {"op": "distribute", "src": T, "col": 0, "dst": P, "dw": L([w2]), "vol": 1, "label": "bad dist"},
             {"op": "add", "lw": P, "wells": L([w2]), "vols": S(1), "label": None},
+            {"op": "aspirate", "lw": P, "wells": L([w2]), "vols": S(0), "label": "bad, nothing to take"},
+            {"op": "dispense", "lw": P, "wells": L([w2, (0, 1)]), "vols": L([0, 1]), "label": "bad first, zero"},
+            {"op": "dispense", "lw": P, "wells": L([(0, 1), w2]), "vols": L([1, 0]), "label": "bad second, zero"},
+            {"op": "remove", "lw": P, "wells": L([w2]), "vols": S(0), "label": None},
             {"op": "transfer", "src": T, "sw": L([(0, 0)]), "dst": P, "dw": L([(0, 1)]), "vols": S(1), "label": "fine", "wash": 1},
         ]
         progs.append(h)
